@@ -5,6 +5,7 @@ import PyElf.Spec.ElfImageFast
 import PyElf.Model.ElfFile
 import PyElf.Model.GnuVersions
 import PyElf.Model.GnuVersionsFile
+import PyElf.Model.VerCache
 import PyElf.Model.Env
 open Lean
 namespace PyElf.Driver.C15
@@ -175,6 +176,9 @@ def observeObj (obj : VerObj) (queries : List Nat) : Json :=
       ("num", okJ (jN vs.numVersions)),
       ("versions", resJson (fun l => Json.arr (l.map verJson).toArray) (vs.versions elfEnv)),
       ("has_indexes", resJson Json.bool (vs.hasIndexes elfEnv)),
+      -- three calls on ONE object, through the model of the cache `_has_indexes` (Model/VerCache; Props/C15
+      -- `has_indexes_history_independent`)
+      ("has_indexes_hist", Json.arr ((vs.hasIndexesHist elfEnv 3).1.map (resJson Json.bool)).toArray),
       ("get", Json.arr (queries.map fun q => resJson needHitJson (vs.needGetVersion elfEnv q)).toArray)]
   | .def_ vs =>
     Json.mkObj [
